@@ -47,9 +47,12 @@ def evidence_extra():
     return {'oracle_selfcheck': dict(_SC)}
 
 
+_P0 = {f: om.dec_str(getattr(gc.gda94_to_gda2020, f)) for f in FIELDS}      # import-time values
+
+
 def par(direction):
     t = gc.gda94_to_gda2020
-    p = {f: om.dec_str(getattr(t, f)) for f in FIELDS}
+    p = dict(_P0)
     if direction == 'back':
         p = {k: -v for k, v in p.items()}
     sd = {k: om.dec_str(getattr(t.tf_sd, k)) for k in SDF}
@@ -108,7 +111,9 @@ def oracle_transform(direction, zone, e, n, h, vcv):
 
 
 def easts(tier, seed):
-    return uniq([1e5, 3e5, 5e5, 7e5, 9e5, 499999.9999] + fill(1e5, 9e5, 2e5 if tier == 'quick' else 5e4, seed, 41))
+    # 300000.0004 / 300000.00049: neighbours of 300000 closer than a millimetre (anything keyed or rounded at mm level
+    # would treat them as the same point; 0.4 mm is above the 0.2 mm agreement tolerance)
+    return uniq([1e5, 3e5, 300000.0004, 300000.00049, 5e5, 7e5, 9e5, 499999.9999] + fill(1e5, 9e5, 2e5 if tier == 'quick' else 5e4, seed, 41))
 
 
 def norths(tier, seed, lo=3.35e6, hi=9.45e6):
